@@ -112,7 +112,7 @@ def replaceJudge (f : List String) (out : String) : String :=
       | some b => Casket.ReplacerSpec.verdict c.env c.fmt (.out b)
 
 /-!
-  c20.log  directives conc requests errlens
+  c20.log  directives conc requests errlens wrap       (wrap: - | errors)
      directives  ','-separated  D<hex scope>[:<hex except>]*        (one `log` directive each, in file order)
      requests    ','-separated  <hex path>:<ops>:<ret>:<0|1 panics>  ops '.'-separated h<code> | w<n>
      errlens     ','-separated  <status>=<length of the default error body>
@@ -154,11 +154,14 @@ structure LogCase where
   errLen : Nat → Nat
 
 def parseLog : List String → Option LogCase
-  | [ds, _conc, reqs, errlens] => do
+  | [ds, _conc, reqs, errlens, wrap] => do
     let ds ← (if ds = "" then some [] else (ds.splitOn ",").mapM parseDirective)
     let reqs ← (if reqs = "" then some [] else (reqs.splitOn ",").mapM parseRequest)
     let el ← parseErrLens errlens
-    pure { ds := ds, reqs := reqs, errLen := fun s => ((el.find? fun p => p.1 == s).map (·.2)).getD 0 }
+    let errLen := fun s => ((el.find? fun p => p.1 == s).map (·.2)).getD 0
+    -- an `errors` directive between log and the handler changes what log's Next does
+    let reqs := if wrap = "errors" then reqs.map fun (p, o) => (p, Casket.Log.withErrors errLen o) else reqs
+    pure { ds := ds, reqs := reqs, errLen := errLen }
   | _ => none
 
 open Casket.Log in
